@@ -28,8 +28,9 @@ Drop(q, n) == SubSeq(q, n + 1, Len(q))
 (* read that is in progress (the notification precedes the read result)                            *)
 TrInit == [q |-> <<>>, shown |-> 0, ovf |-> FALSE, bad |-> ""]
 TrFail(m, sig) == IF m.bad = "" /\ sig \notin Muted THEN [m EXCEPT !.bad = sig] ELSE m
-(* after a rejection the monitor re-synchronises on what the implementation showed *)
-
+(* after a rejection the monitor re-synchronises on what the implementation showed: the shown bytes followed by *)
+(* everything written after the last of them (keeps the product finite when a signature is muted)              *)
+Newer(q, x) == SelectSeq(q, LAMBDA y : y < x)
 TrRead(m0, T, res, data) ==
   LET m == IF m0.ovf THEN [m0 EXCEPT !.q = Drop(@, m0.shown), !.shown = 0, !.ovf = FALSE] ELSE m0
       n == Len(data) IN
@@ -37,19 +38,21 @@ TrRead(m0, T, res, data) ==
        IF n = 0 THEN TrFail(m, "C14:transport-read-ok-without-data")
        ELSE IF n > Len(m.q) \/ SubSeq(m.q, 1, Min2(n, Len(m.q))) # data
             THEN LET lost == \E k \in 1..Len(m.q) : n <= Len(m.q) - k /\ SubSeq(m.q, k + 1, k + n) = data IN
-                 TrFail([m EXCEPT !.q = data \o Drop(@, Min2(n, Len(@))), !.shown = n],
+                 TrFail([m EXCEPT !.q = data \o Newer(@, data[n]), !.shown = n],
                         IF lost THEN "C14:transport-bytes-lost" ELSE "C14:transport-bytes-altered-or-reordered")
-       ELSE IF n < m.shown THEN TrFail([m EXCEPT !.q = Drop(@, m.shown - n), !.shown = n], "C14:transport-buffered-bytes-vanished")
+       ELSE IF n < m.shown THEN TrFail([m EXCEPT !.shown = n], "C14:transport-buffered-bytes-vanished")
        ELSE IF T = 0 /\ n # m.shown THEN TrFail([m EXCEPT !.shown = n], "C14:transport-read0-returns-unbuffered")
        ELSE [m EXCEPT !.shown = n]
   ELSE IF res = 2 THEN
        IF T > 0 /\ Len(m.q) > m.shown THEN TrFail(m, "C14:transport-bytes-not-delivered")
-       ELSE IF T = 0 /\ m.shown > 0 THEN TrFail(m, "C14:transport-read0-hides-buffered")
+       ELSE IF T = 0 /\ m.shown > 0 THEN TrFail([m EXCEPT !.q = Drop(@, m.shown), !.shown = 0], "C14:transport-read0-hides-buffered")
        ELSE m
   ELSE TrFail(m, "C14:transport-read-error")
 
 TrEv(m, e) ==
-  CASE e[1] = "w"    -> [m EXCEPT !.q = Shift(@, e[2]) \o Down(e[2])]
+  CASE e[1] = "w"    -> LET q2 == Shift(m.q, e[2]) \o Down(e[2]) IN
+                        IF Len(q2) > 160 THEN TrFail([m EXCEPT !.q = Drop(q2, Len(q2) - 160), !.shown = 0], "C14:transport-bytes-not-delivered")
+                        ELSE [m EXCEPT !.q = q2]
     [] e[1] = "rd"   -> TrRead(m, e[2], e[3], e[4])
     [] e[1] = "cons" -> LET c == Min2(e[2], m.shown) IN [m EXCEPT !.q = Drop(@, c), !.shown = @ - c]
     [] e[1] = "ntf"  -> IF e[2] = "overflow"
